@@ -520,7 +520,7 @@ class Recorder:
         self.tr_calls.clear()
 
 
-async def build_engine(s, schema_name, oracle_ref, rec, cfg=None):
+async def build_engine(s, schema_name, oracle_ref, rec, cfg=None, sdl=None):
     """oracle_ref: one-element list holding the current Oracle (swapped per request)."""
     from tartiflette import create_engine, Resolver, TypeResolver, Scalar
     cfg = cfg or {"parent": True, "list": True, "args": "gather"}
@@ -603,7 +603,7 @@ async def build_engine(s, schema_name, oracle_ref, rec, cfg=None):
                     if v % 2 == 1:
                         return v
                 return UNDEFINED_VALUE
-    return await create_engine(gen.schema_sdl(s), schema_name=schema_name,
+    return await create_engine(sdl or gen.schema_sdl(s), schema_name=schema_name,
                                coerce_parent_concurrently=cfg["parent"], coerce_list_concurrently=cfg["list"],
                                custom_default_arguments_coercer=None)
 
